@@ -106,11 +106,13 @@ def _detect_alleles(variants, var_progress, first, bam_read):
         int cigar_op                            # copy python vars here ...
         int length                              # ... for runtime optimization
 
-    # Skip variants that come before this region
+    # Skip variants that come before this region. A variant with an empty reference allele
+    # (normalized insertion) located at the very first aligned base is not overlapped by
+    # the read: without the preceding base, no allele can be observed.
     while j < n:
         var_id = var_progress[j].variant_id
         var_pos = variants[var_id].position
-        if var_pos >= ref_pos:
+        if var_pos > ref_pos or (var_pos == ref_pos and len(variants[var_id].reference_allele) > 0):
             break
         j += 1
 
